@@ -18,6 +18,7 @@ import DSV.Model.Read
 import DSV.Model.Append
 import DSV.Model.History
 import DSV.Model.TxOps
+import DSV.Model.Marker
 /-!
 Line-protocol driver: one request per line on stdin, one reply per line on stdout.
 First token selects the model function.  Imports only `DSV.Model.*` (core Lean), so it links natively.
@@ -889,6 +890,27 @@ def handlePath (cmd : String) (args : List String) : String :=
       | _, _ => "bad-op"
   | _, _ => "bad-op"
 
+/-! #### in-flight marker naming -/
+def handleMarker (cmd : String) (args : List String) : String :=
+  match cmd, args with
+  | "marker.name", [p, d] =>
+      match decStr p, decStr d with
+      | some path, some dig => encStr (DSV.Marker.markerName (fun _ => dig) path)
+      | _, _ => "bad-op"
+  | "marker.register", ps =>
+      -- args: <path>:<digest of its table-relative form> … ; reply: the paths that get a marker of their own, in order
+      let parsed := ps.mapM fun tok => match tok.splitOn ":" with
+        | [p, d] => (match decStr p, decStr d with | some pp, some dd => some (pp, dd) | _, _ => none)
+        | _ => none
+      match parsed with
+      | some pairs =>
+          let dig : List Char → List Char := fun r =>
+            match pairs.find? (fun pd => DSV.Marker.lstripSlash pd.1 == r) with | some pd => pd.2 | none => []
+          let r := DSV.Marker.register (DSV.Marker.markerName dig) [] (pairs.map (·.1))
+          String.intercalate "," (r.2.map encStr)
+      | none => "bad-op"
+  | _, _ => "bad-op"
+
 /-! #### read decision tree -/
 open DSV.Read in
 def handleReadOutcome (args : List String) : String :=
@@ -1060,6 +1082,7 @@ def handle (line : String) : String :=
     else if cmd = "cf.outcome" then handleCf args
     else if cmd = "fs.judge" then handleFsJudge args
     else if cmd.startsWith "path." then handlePath cmd args
+    else if cmd.startsWith "marker." then handleMarker cmd args
     else if cmd = "rd.outcome" then handleReadOutcome args
     else if cmd.startsWith "ap." then handleAppend cmd args
     else if cmd = "hist.run" then handleHist args
